@@ -24,7 +24,7 @@ from typing import Any, Callable
 VERIF = Path(__file__).resolve().parent.parent
 LEAN = VERIF / 'lean'
 REPO = Path(os.environ.get('VERIF_REPO', '/repo'))
-DRIVER = LEAN / '.lake' / 'build' / 'bin' / 'exadriver'
+BIN = LEAN / '.lake' / 'build' / 'bin'
 ALLOWED_AXIOMS = {'propext', 'Classical.choice', 'Quot.sound'}
 FORBIDDEN = re.compile(r'\bsorry\b|\badmit\b|^axiom |native_decide|bv_decide|implemented_by|\bunsafe |maxHeartbeats 0')
 
@@ -167,12 +167,13 @@ def audit_axioms(prop: str, modules: list[str]) -> tuple[dict[str, list[str]], s
 
 
 class Driver:
-    """The compiled Lean model behind a one-line-in / one-line-out protocol."""
+    """A compiled Lean model behind a one-line-in / one-line-out protocol (interactive use)."""
 
-    def __init__(self) -> None:
-        if not DRIVER.exists():
-            raise Infra(f'driver not built: {DRIVER}')
-        self.p = subprocess.Popen([str(DRIVER)], stdin=subprocess.PIPE, stdout=subprocess.PIPE, text=True, bufsize=1)
+    def __init__(self, exe: str) -> None:
+        path = BIN / exe
+        if not path.exists():
+            raise Infra(f'driver not built: {path}')
+        self.p = subprocess.Popen([str(path)], stdin=subprocess.PIPE, stdout=subprocess.PIPE, text=True, bufsize=1)
 
     def ask(self, line: str) -> str:
         assert '\n' not in line
@@ -183,9 +184,6 @@ class Driver:
             raise Infra(f'driver died on: {line}')
         return out.rstrip('\n')
 
-    def batch(self, lines: list[str]) -> list[str]:
-        return run_driver(lines)
-
     def close(self) -> None:
         try:
             self.p.stdin.close()
@@ -194,17 +192,20 @@ class Driver:
             self.p.kill()
 
 
-def run_driver(lines: list[str]) -> list[str]:
+def run_driver(exe: str, lines: list[str]) -> list[str]:
     """Run a whole script through a fresh driver process (fast path: one write, one read)."""
-    if not DRIVER.exists():
-        raise Infra(f'driver not built: {DRIVER}')
+    path = BIN / exe
+    if not path.exists():
+        raise Infra(f'driver not built: {path}')
+    if not lines:
+        return []
     data = '\n'.join(lines) + '\n'
-    p = subprocess.run([str(DRIVER)], input=data, stdout=subprocess.PIPE, text=True)
+    p = subprocess.run([str(path)], input=data, stdout=subprocess.PIPE, text=True)
     out = p.stdout.split('\n')
     if out and out[-1] == '':
         out.pop()
     if len(out) != len(lines):
-        raise Infra(f'driver returned {len(out)} lines for {len(lines)} inputs (rc={p.returncode})')
+        raise Infra(f'driver {exe} returned {len(out)} lines for {len(lines)} inputs (rc={p.returncode})')
     return out
 
 
@@ -297,7 +298,8 @@ def run_check(prop: str, tier: str, seed: int, module: Any) -> int:
 
     theorem_modules: list[str] = list(module.THEOREM_MODULES)
     # 1. driver (models only) — needed for correspondence
-    okd, outd, _ = lake_build(['exadriver'], clean=(tier == 'thorough' and os.environ.get('VERIF_CLEAN', '1') == '1'))
+    drivers = list(getattr(module, 'DRIVERS', []))
+    okd, outd, _ = lake_build(drivers, clean=(tier == 'thorough' and os.environ.get('VERIF_CLEAN', '0') == '1')) if drivers else (True, '', [])
     if not okd:
         log(outd[-3000:])
         broken.append('model/driver does not build: ' + ', '.join(failing_decls(outd)))
